@@ -42,7 +42,8 @@ ASSUMPTIONS = [
     "little-endian host in the correspondence run (the theorems quantify over both endiannesses)",
     "64-bit usize: the sums of header lengths and payload.len() cannot wrap (payload.len() < 2^63)",
     "C10_parse_back (wire reference decoder = expected_x) holds for every configuration whose payload the message type admits (payload_admitted: not write(ip_number) with 1/6/17/58/51 or, over IPv6, an extension header number; not an ICMPv4 timestamp message -- typed TimestampRequest/Reply or raw type 13/14 code 0 -- whose total size is not 20 bytes); for the excluded cases C10_parse_back_upto_ip / _upto_transport / C10_timestamp_wrong_size_rejected state what the decoder returns and C10_parse_back_refuted_* that the full equation fails; the chain part of C10_next_protocol_fields needs chain_pre on write(ip_number) over IPv6",
-    "C10_icmp4_value_back / C10_icmp6_value_back use C08's wf_icmp4_type / wf_icmp6_type: a raw Unknown{type, code} that names a typed kind is read back as that kind (window theorems still apply)",
+    "C10_icmp4_value_back(_cfg) / C10_icmp6_value_back(_cfg): beyond cfg_wf the only hypothesis is that a raw Unknown{type, code} (icmpv4_raw / icmpv6_raw) does not name a typed kind (C10_icmp_wf_gap; the 29 ICMPv4 / 28 ICMPv6 pairs are listed by C10_icmp_typed_pairs); such a value is read back as that kind (C10_ex_raw_named; window theorems still apply)",
+    "C10_crate_parse_back / C10_build_bytes_ok / C10_checksums_verify additionally assume every payload element is a byte (bytes_ok p)",
     "values satisfy the type invariants of the crate's structs (array sizes, bounded newtypes, option/ICV buffer lengths): cfg_wf in the theorems, enforced by construction in the harness",
 ]
 PROJECTION = "verdict (ok / error kind with its numbers), size(), every byte that reached the sink"
